@@ -1362,6 +1362,10 @@ def _spl_calls(scn):
                         par["setter_fails"].append(("spl_accepts_valid_parameters", "set_slope_exp(%r) gave %s" % (v, res)))
                     if want_err:
                         par["rejected"] = True
+                elif what == "k":
+                    par["K"] = [v] * n
+                    if res != ["ok"]:
+                        par["setter_fails"].append(("spl_accepts_valid_parameters", "set_k_coef(%r) gave %s" % (v, res)))
                 else:
                     par["m"] = v
                     if res != ["ok"]:
